@@ -294,10 +294,34 @@ func registerNumberStubs(reg func(string, intrinsic)) {
 		if f.op == OConst {
 			return strVal{s: strconv.FormatFloat(f.f64(), byte(verb.u), int(prec.sval()), int(bits.u))}
 		}
-		if prec.sval() != -1 || bits.u != 64 {
-			panic(unsupported{"FormatFloat: only precision -1 / 64 bit is modelled"})
+		if prec.sval() != -1 || (bits.u != 64 && bits.u != 32) {
+			panic(unsupported{"FormatFloat: only precision -1 with bit size 64 or 32 is modelled"})
 		}
-		return x.formatFloat(f, byte(verb.u))
+		tb := x.tb
+		if bits.u == 32 {
+			// shortest text that identifies float32(f): it denotes some float64 y with float32(y) == float32(f)
+			// (which y — the digits — is library contract; the real function is consulted when a model is replayed)
+			y := x.auxVar(SF64)
+			x.axiom(tb.Eq(tb.FToBits(tb.FCvt(y, SF32)), tb.FToBits(tb.FCvt(f, SF32))))
+			x.axiom(tb.Eq(tb.fun(OFIsInf, y), tb.fun(OFIsInf, f)))
+			f = y
+		}
+		v := byte(verb.u)
+		if v == 'g' || v == 'G' {
+			// %g with the shortest representation: exponent form iff the decimal exponent is < -4 or >= 6
+			e := byte('e')
+			if v == 'G' {
+				e = 'E'
+			}
+			abs := tb.fun(OFAbs, f)
+			v = 'f'
+			if !x.branch(tb.fun(OFIsNaN, f)) && !x.branch(tb.fun(OFIsInf, f)) && !x.branch(tb.fcmp(OFEq, abs, tb.F64(0))) {
+				if x.branch(tb.Or(tb.fcmp(OFLt, abs, tb.F64(1e-4)), tb.fcmp(OFLe, tb.F64(1e6), abs))) {
+					v = e
+				}
+			}
+		}
+		return x.formatFloat(f, v)
 	})
 	// Append* = append(dst, Format*(...)...)
 	appendStr := func(x *Exec, dst value, s strVal) value {
